@@ -848,6 +848,7 @@ func dhcpSeeds(alpha []dEvent) [][]int {
 		{d1, r1, d1, find("capture", 0, "")},                            // a bound client that is negotiating again is captured: its next message moves it to the other subnet
 		{d1, r1, d1, d1},                                                // a bound client that negotiates again twice: the second offer need not be its current address
 		{d1, r1, tick2h, tickMin, d1, tickMin},                          // a bound client, forgotten by the session, negotiates again and lets the offer run out
+		{find("discover", 0, "free"), r1, find("seen", 0, ""), d1},      // a bound client whose address a static station took negotiates again: it holds a lease and an open offer for another address
 	}
 }
 
